@@ -11,6 +11,21 @@
 (*           add/cat          compound int / string operands                *)
 (* Contexts for boolean-valued shapes E:  if E | b && E | b || E | !E |     *)
 (*           E == b ; "stmt" for statement shapes; div/neg for QF1005.      *)
+(* Repeated metavariables (SR / R): name, kind, number of occurrences that  *)
+(* can carry the near-equal variant, the operand slot that instantiates    *)
+(* the metavariable in the base cases (0: none, the template has a fixed   *)
+(* expression), and the applicable variations (FixCases!VarsOf(kind)).     *)
+(*   qf1002*/qf1003*  tag : every `tag == v` of the switch / if-else chain *)
+(*                    (across conditions and inside one || chain)          *)
+(*   s1033            m, key : `_, ok := m[key]` / `delete(m, key)`        *)
+(*   s1036_inc        m, key (indexexpr, 3x), value (+= value / = value)   *)
+(*   s1010            x : x[lo:len(x)]                                      *)
+(*   s1011            lhs : lhs = append(lhs, v) ; val                      *)
+(*   s1011_idx        x : range x / x[i] ; lhs                              *)
+(*   s1001            key, value ; s1001_idx  src : range src / src[i], key *)
+(*   s1018            slice, initvar ; s1016  v : T{A: v.A, B: v.B}         *)
+(*   s1021 x ; s1034 x ; qf1007 x   (types.Object identity)                *)
+(* The other shapes have no repeated metavariable.                          *)
 (***************************************************************************)
 EXTENDS FixCases
 
@@ -23,7 +38,11 @@ VC     == {"var", "call"}
 BoolCtx == {"if", "andR", "orR", "bang", "eqL"}
 Stmt    == {"stmt"}
 
-S(id, check, slots, ctxs) == [id |-> id, check |-> check, slots |-> slots, ctxs |-> ctxs]
+SR(id, check, slots, ctxs, reps) == [id |-> id, check |-> check, slots |-> slots, ctxs |-> ctxs, reps |-> reps]
+S(id, check, slots, ctxs) == SR(id, check, slots, ctxs, << >>)
+R(mv, kind, n, slot, vars) == [mv |-> mv, kind |-> kind, n |-> n, slot |-> slot, vars |-> vars]
+PlainS == {"var", "lit"}
+LhsVars == SlVars \ {"elt"}        \* a composite literal is not assignable
 B(a) == [kind |-> "bool", allow |-> a]
 I(a) == [kind |-> "int", allow |-> a]
 T(a) == [kind |-> "str", allow |-> a]
@@ -48,31 +67,39 @@ MCShapes == {
   S("s1004_ne",  "S1004", <<Y(VC), Y(VC)>>, {"if", "bang", "andR"}),
   S("s1005_rangeiblank", "S1005", <<L(VC)>>, Stmt),
   S("s1005_rangeblank",  "S1005", <<L(VC)>>, Stmt),
-  S("s1010",     "S1010", <<I(IntS)>>, Stmt),
-  S("s1011",     "S1011", <<L(VC)>>, Stmt),
-  S("s1001",     "S1001", <<L(VC)>>, Stmt),
-  S("s1016",     "S1016", << >>, Stmt),
-  S("s1018",     "S1018", <<I({"var", "lit"}), I({"var", "lit"})>>, Stmt),
-  S("s1021",     "S1021", <<I(IntE)>>, Stmt),
+  SR("s1010",    "S1010", <<I(IntS)>>, Stmt, <<R("x", "sl", 2, 0, SlVars)>>),
+  SR("s1011",    "S1011", <<L(VC)>>, Stmt, <<R("lhs", "sl", 2, 0, LhsVars), R("val", "id", 1, 0, {"paren"})>>),
+  SR("s1011_idx", "S1011", <<L(VC)>>, Stmt, <<R("x", "sl", 2, 1, SlVars), R("lhs", "sl", 2, 0, LhsVars)>>),
+  SR("s1001",    "S1001", <<L(VC)>>, Stmt, <<R("key", "id", 1, 0, {"paren"}), R("value", "id", 1, 0, {"paren"})>>),
+  SR("s1001_idx", "S1001", <<L(VC)>>, Stmt, <<R("src", "sl", 2, 1, SlVars), R("key", "id", 2, 0, {"paren"})>>),
+  SR("s1016",    "S1016", << >>, Stmt, <<R("v", "id", 2, 0, IdVars)>>),
+  SR("s1018",    "S1018", <<I({"var", "lit"}), I({"var", "lit"})>>, Stmt,
+     <<R("slice", "sl", 2, 0, {"paren", "ident"}), R("initvar", "id", 2, 0, {"paren"})>>),
+  SR("s1021",    "S1021", <<I(IntE)>>, Stmt, <<R("x", "id", 1, 0, IdVars)>>),
   S("s1025_str", "S1025", <<T({"var", "call", "cat"})>>, Stmt),
   S("s1025_stringer", "S1025", << >>, Stmt),
   S("s1028",     "S1028", <<I(IntE)>>, Stmt),
   S("s1030_string", "S1030", << >>, Stmt),
   S("s1030_bytes",  "S1030", << >>, Stmt),
-  S("s1033",     "S1033", <<I(IntS)>>, Stmt),
-  S("s1034",     "S1034", << >>, Stmt),
-  S("s1036_inc", "S1036", <<I(IntS), I(IntS)>>, Stmt),
+  SR("s1033",    "S1033", <<I(IntS)>>, Stmt, <<R("m", "map", 2, 0, MapVars), R("key", "int", 2, 1, IntVars)>>),
+  SR("s1034",    "S1034", << >>, Stmt, <<R("x", "id", 2, 0, IdVars)>>),
+  SR("s1036_inc", "S1036", <<I(IntS), I(IntS)>>, Stmt,
+     <<R("m", "map", 3, 0, MapVars), R("key", "int", 3, 1, IntVars), R("value", "int", 2, 2, IntVars)>>),
   S("s1039",     "S1039", << >>, Stmt),
   S("qf1001_and2", "QF1001", <<B(BoolE), B(BoolE)>>, BoolCtx),
   S("qf1001_or2",  "QF1001", <<B(BoolE), B(BoolE)>>, BoolCtx),
   S("qf1001_and3", "QF1001", <<B(Bool3), B(Bool3), B(Bool3)>>, BoolCtx),
-  S("qf1002",    "QF1002", <<I(IntS), I(IntS)>>, Stmt),
-  S("qf1003",    "QF1003", <<I(IntS), I(IntS)>>, Stmt),
+  SR("qf1002",      "QF1002", <<I(IntS), I(IntS)>>, Stmt, <<R("tag", "int", 3, 0, IntVars)>>),
+  SR("qf1003",      "QF1003", <<I(IntS), I(IntS)>>, Stmt, <<R("tag", "int", 4, 0, IntVars)>>),
+  SR("qf1002_str",  "QF1002", <<T(PlainS), T(PlainS)>>, Stmt, <<R("tag", "str", 3, 0, StrVars)>>),
+  SR("qf1003_str",  "QF1003", <<T(PlainS), T(PlainS)>>, Stmt, <<R("tag", "str", 4, 0, StrVars)>>),
+  SR("qf1002_bool", "QF1002", <<B({"var"}), B({"var"})>>, Stmt, <<R("tag", "bool", 3, 0, BoolVars)>>),
+  SR("qf1003_bool", "QF1003", <<B({"var"}), B({"var"})>>, Stmt, <<R("tag", "bool", 4, 0, BoolVars)>>),
   S("qf1004",    "QF1004", <<T(VC), T(VC), T(VC)>>, Stmt),
   S("qf1005_sq",   "QF1005", <<F({"var", "call", "add"})>>, {"stmt", "div", "neg"}),
   S("qf1005_cube", "QF1005", <<F({"var", "call", "add"})>>, {"stmt", "div", "neg"}),
   S("qf1006",    "QF1006", <<B(BoolE)>>, Stmt),
-  S("qf1007",    "QF1007", <<B(BoolE)>>, Stmt),
+  SR("qf1007",   "QF1007", <<B(BoolE)>>, Stmt, <<R("x", "id", 1, 0, IdVars)>>),
   S("qf1008",    "QF1008", << >>, Stmt),
   S("qf1011",    "QF1011", <<I(IntS)>>, Stmt),
   S("qf1012",    "QF1012", <<W(VC), I(IntE)>>, Stmt)
